@@ -7,7 +7,8 @@
 (*   - no mutation id, label, version id or instance id is issued twice,   *)
 (*   - mutation ids and allocated labels strictly increase in issue order, *)
 (*   - every allocated label exceeds every label present in the volume     *)
-(*     (ingested or allocated earlier), unless the counter was repositioned*)
+(*     (ingested or allocated earlier, or found in the stored voxels after *)
+(*     a crash), unless the counter was repositioned                       *)
 (* Restart / Crash events change nothing: identifiers survive them.        *)
 (***************************************************************************)
 EXTENDS Integers, Sequences, FiniteSets, TLC, Json
@@ -35,7 +36,15 @@ EvIngest == /\ IsEvent("ingest")
                maxLabel' = Put(maxLabel, t.inst, IF t.max > Get(maxLabel, t.inst) THEN t.max ELSE Get(maxLabel, t.inst))
             /\ UNCHANGED <<lastMut, versions, insts>>
 
-\* one label allocated (cleave, split-supervoxel)
+\* after a crash the driver reads the stored voxels: the largest label found there is present,
+\* whether or not the request that wrote it was ever acknowledged (the property speaks of
+\* "every label already present in that label volume")
+EvPresent == /\ IsEvent("present")
+             /\ LET t == TraceLog[l] IN
+                maxLabel' = Put(maxLabel, t.inst, IF t.max > Get(maxLabel, t.inst) THEN t.max ELSE Get(maxLabel, t.inst))
+             /\ UNCHANGED <<lastMut, versions, insts>>
+
+\* one label allocated (cleave, split-supervoxel: the split and the remainder supervoxel)
 EvLabel == /\ IsEvent("label")
            /\ LET t == TraceLog[l] IN
               /\ t.id > Get(maxLabel, t.inst)
@@ -71,7 +80,7 @@ EvRestart == (IsEvent("restart") \/ IsEvent("crash")) /\ UNCHANGED <<maxLabel, l
 \* several traces are concatenated: a reset starts from scratch
 EvReset == IsEvent("reset") /\ maxLabel' = <<>> /\ lastMut' = <<>> /\ versions' = {} /\ insts' = {}
 
-Next == EvIngest \/ EvLabel \/ EvRange \/ EvMut \/ EvVersion \/ EvInstance \/ EvRestart \/ EvReset
+Next == EvIngest \/ EvPresent \/ EvLabel \/ EvRange \/ EvMut \/ EvVersion \/ EvInstance \/ EvRestart \/ EvReset
 Spec == Init /\ [][Next]_vars
 
 \* every line of the trace was explained (fully logged events: the search is linear)
